@@ -191,7 +191,10 @@ static void gen_iso(void) {
     if (nondet_bool()) { /* fraction: mark and one or more digits (as many as fit into 100 bytes) */
         put(nondet_bool() ? '.' : ',');
         size_t nfrac = nondet_size_t();
-        __CPROVER_assume(nfrac >= 1 && nfrac <= AWS_DATE_TIME_STR_MAX_LEN);
+#ifndef MAXFRAC
+#define MAXFRAC AWS_DATE_TIME_STR_MAX_LEN
+#endif
+        __CPROVER_assume(nfrac >= 1 && nfrac <= MAXFRAC);
         for (size_t i = 0; i < nfrac; ++i) put_digit();
     }
     if (nondet_bool()) {
